@@ -182,7 +182,52 @@ func runC16(w *World) {
 				return
 			}
 		}
-		if !checkAll("before restart") {
+		// one request creating three accounts whose access fields are 8, 3 and 0 bytes long: every account gets the
+		// bytes of ITS field, the bytes a field omits are zero
+		bat := []rp.Access{accts[0].b, accts[1%len(accts)].b, {}}
+		for k := 3; k < 8; k++ {
+			bat[1][k] = 0
+		}
+		if rep, ok := admin.UpdateUsers([]UserEdit{
+			{Kind: "create", Login: "bat0", Name: "Batch", Access: rp.AllAccess(), PwMode: PwNew, Pw: ""},
+			{Kind: "create", Login: "bat1", Name: "Batch", Access: accts[1%len(accts)].b, PwMode: PwNew, Pw: "", AccessLen: 3},
+			{Kind: "create", Login: "bat2", Name: "Batch", Access: rp.AllAccess(), PwMode: PwNew, Pw: "", AccessLen: -1},
+		}); !ok || rep.Err != 0 {
+			w.Violate("c16-create", "batched creation with short access fields failed: %s", fieldStr(rep, rp.FError))
+			return
+		}
+		bat[0] = rp.AllAccess()
+		checkBat := func(when string) bool {
+			for k, want := range bat {
+				login := fmt.Sprintf("bat%d", k)
+				onDisk, _, err := fileKeys(login)
+				if err != nil {
+					w.Violate("c16-file-unreadable", "%s: %s: %v", when, login, err)
+					return false
+				}
+				wantDefined := want
+				for i := 0; i < 64; i++ {
+					if _, def := rp.AccessNames[i]; !def {
+						wantDefined.Clear(i)
+					}
+				}
+				if onDisk != wantDefined {
+					w.Violate("c16-batch-short-access-field", "%s: %s was created from an access field of %d bytes (%x); its file names the privileges %x", when, login, []int{8, 3, 0}[k], want, onDisk)
+					return false
+				}
+				got, pc, ok := grantedAtLogin(login)
+				if ok {
+					pc.Disconnect()
+				}
+				if !ok || got != want {
+					w.Violate("c16-batch-short-access-field", "%s: %s was created from an access field of %d bytes (%x); at login it is granted %x (login ok=%v)", when, login, []int{8, 3, 0}[k], want, got, ok)
+					return false
+				}
+			}
+			w.Probe("batch_short_access_fields_checked")
+			return true
+		}
+		if !checkAll("before restart") || !checkBat("before restart") {
 			return
 		}
 		w.StopServer()
@@ -192,7 +237,7 @@ func runC16(w *World) {
 			return
 		}
 		w.Probe("restarts")
-		if !checkAll("after restart") {
+		if !checkAll("after restart") || !checkBat("after restart") {
 			return
 		}
 		// authorization decisions follow the same bits after the reload
